@@ -107,6 +107,16 @@ CLAIMED["C13"] = dict(
         "plus refused/unreachable/time-out/bind conflict/non-local bind/bad, truncated or wrong-key handshake response/server close or reset mid-handshake. The stub kernel's exact census (number:kind:generation) must be what it was before after a failure, and after Close of a success. "
         "Seeded exploration on top: repeated Close (and Cancel-after-Close, conn-close-after-adapter-close) on every object kind interleaved with creation of other objects so that numbers are reused - any close of a generation the object does not own is flagged; and GC at tape-chosen instants with reads and/or writes deferred after the program dropped every reference (weak pointer to a sentinel captured only by the callbacks), including between the completion of one direction and the other, with the completion required afterwards.",
    note="Fault points are enumerated over the kernel calls the stub sees, not over Go allocations. Open known finding: Dial panics for descriptor numbers >= 1024 (select).")
+CLAIMED["C09"] = dict(
+   technique="model conformance over seeded call histories, with simulated readers/writers for the I/O methods (short, zero-byte and failing reads, short and failing writes, deferred completions)",
+   text="Call histories over the whole public API (Write/WriteByte/WriteString, Claim, ClaimFixed, Commit, Consume, Save, Discard, DiscardAll, Reserve, ShrinkBy, ShrinkTo, PrepareRead, Read, ReadByte, ReadFrom, WriteTo, AsyncReadFrom, AsyncWriteTo, Reset) with integer arguments from the classes {MinInt, <0, 0, 1, avail-1, avail, avail+1, large, MaxInt}, growth across reallocation, and simulated transports for the I/O methods. "
+        "After every call Data(), Saved(), every live saved slot and the five length getters must equal a three-region reference model, returned values must equal the model's, and nothing may panic.",
+   note="Honest scope: apart from the I/O methods (simulated transports with faults and deferred completions) this is sequential model conformance, not schedule exploration. Reserve is exercised up to 1 MiB. Slot arguments are always slots the buffer handed out. While an asynchronous transfer is in flight only getters are called. UnreadByte is not in the property's list and not exercised.")
+CLAIMED["C20"] = dict(
+   technique="deterministic simulation of a sequenced multicast feed (loss, duplication, reordering, delay, retransmission after a virtual time-out) driving the park/pop/discard pipeline, map model as oracle",
+   text="1-3 channels of packets (seq, payload=g(channel, seq)) published over simulated multicast with loss, duplication, reordering and delay; a retransmission actor fills gaps later; the receiver parks every out-of-order packet in a ByteBuffer save area indexed by a SlotSequencer (1 in 4 runs: bare SlotOffsetter), pops and discards when the gap closes, and expires tape-chosen parked packets in any order; slot and byte capacities are drawn small, and a long-lived gap keeps one sequencer non-empty while others drain repeatedly. "
+        "Oracle after every call: Pop succeeds iff parked; the returned slot addresses exactly the bytes saved under that number before its Discard; afterwards Saved() is the concatenation of the remaining parked packets in save order; duplicates return (false, nil) and change nothing; capacity overruns return an error and change nothing; Bytes()/Size() equal the model; the application receives every sequence number once, in order, intact.",
+   note="A Push refused with ErrNoSpaceLeftForSlot below the byte capacity is tolerated only when the bytes pushed since the sequencer was last empty reach maxBytes (the offsetter's index space), and counted by a probe.")
 
 NOT_YET = {
 }
